@@ -91,7 +91,12 @@ def gen_outer(rng, inner, outs, facts):
         # ORDER BY subquery columns, selected or not
         order = [ast.OrderBy(ast.Column(rng.choice(keyable)[0]), ast.Ordering(rng.below(2))) for _ in range(rng.range(1, 2))]
         limit = rng.choice([None, None, 1, 3])
-    return ast.Select(targets, inner, where, None, order, None, limit, None), outs2
+    distinct = None
+    if rng.chance(1, 4):
+        distinct = True
+        if limit is None:
+            limit = rng.choice([1, 2, 3])
+    return ast.Select(targets, inner, where, None, order, None, limit, distinct), outs2
 
 
 def materialised_oracle(ctx, tables, inner, outer, outs):
@@ -124,6 +129,17 @@ CORPUS = [
     'SELECT a FROM (SELECT s AS a, t AS b, i FROM #t) ORDER BY b DESC, i',
     'SELECT a, count(*) AS n FROM (SELECT s AS a, t AS b FROM #t) GROUP BY a, b ORDER BY a, n',
     'SELECT * FROM (SELECT t, s FROM (SELECT s, t, i FROM #t WHERE i > 1))',
+    # inner outputs named by their expression text
+    'SELECT * FROM (SELECT s, i + 1, length(s) FROM #t)',
+    'SELECT * FROM (SELECT count(*), sum(i) FROM #t)',
+    'SELECT * FROM (SELECT s, sum(i), count(*) AS n FROM #t GROUP BY s)',
+    'SELECT * FROM (SELECT * FROM (SELECT i * 2, s FROM #t))',
+    # DISTINCT and LIMIT outside
+    'SELECT DISTINCT a FROM (SELECT s AS a, i FROM #t) LIMIT 2',
+    'SELECT DISTINCT a, b FROM (SELECT s AS a, t AS b, i FROM #t ORDER BY i) LIMIT 3',
+    'SELECT DISTINCT a FROM (SELECT s AS a, i FROM #t LIMIT 4) LIMIT 2',
+    'SELECT DISTINCT a FROM (SELECT s AS a, i FROM #t ORDER BY s) LIMIT 2',
+    'SELECT DISTINCT b FROM (SELECT t AS b, i FROM #t ORDER BY t DESC) LIMIT 2',
 ]
 
 
